@@ -88,8 +88,12 @@ package sm2
 //@   heapnonnil
 //@   modifies everything
 
+// the decrypted private key is returned only if its public key equals the one in the envelope
 //@ func ParseEnvelopedPrivateKey property C13,C14
 //@   requires priv != nil && len(enveloped) <= 4000000000
+//@   bind after call Equal#3: EQ := ite(result, 1, 0)
+//@   ensures err == nil ==> EQ == 1 && result0 != nil
+//@   ensures err != nil ==> result0 == nil
 //@   heapnonnil
 //@   modifies everything
 
@@ -97,7 +101,12 @@ package sm2
 // has probability 2^-8n for an n-byte message) must start from the same Q. The all-zero test of
 // step A5 is on t = KDF(x2 || y2, klen), the value c2 holds at that point.
 // the curve description built by p256(): 256-bit order n, nMinus1 == n - 1
-//@ pred curveok(c) := c != nil && c.curve != nil && c.newPoint != nil && c.N != nil && c.nMinus1 != nil && MSIZE(objof(c.N)) == 32 && MBITS(objof(c.N)) == 256 && MODV(objof(c.N)) > 2 && ghost(natv, c.nMinus1) == MODV(objof(c.N)) - 1
+//@ pred curveok(c) := MODV(objof(c.N)) == NORD() && c != nil && c.curve != nil && c.newPoint != nil && c.N != nil && c.nMinus1 != nil && MSIZE(objof(c.N)) == 32 && MBITS(objof(c.N)) == 256 && MODV(objof(c.N)) > 2 && ghost(natv, c.nMinus1) == MODV(objof(c.N)) - 1
+
+// (assumed: what p256() builds satisfies curveok)
+//@ func p256 trusted
+//@   ensures curveok(result) && CURVEBITS(id(result.curve)) == 256
+//@   modifies nothing
 
 // ---- the secret scalar (C12): k is exactly the last 32-byte block read from the caller's random
 // source (big-endian, nothing masked, reduced or reused), accepted only if 0 < k < n (and k != n-1
@@ -143,7 +152,7 @@ package sm2
 //@   modifies nothing
 
 //@ func NewPrivateKey property C13,C14
-//@   ensures err == nil ==> result0 != nil
+//@   ensures err == nil ==> result0 != nil && len(key) == 32 && 1 <= BEV(arr(key), offof(key), len(key)) && BEV(arr(key), offof(key), len(key)) < NORD() - 1
 //@   fnspec newPoint: std:pointCreator
 //@   modifies nothing
 
